@@ -36,17 +36,17 @@ import (
 // ---------------------------------------------------------------------------------------------
 // deviation switches of the model (lean/ExprModel/Opt/Basic.lean `Flags`), probed from the real code
 
-type OptFlags struct{ WalkSlice, StrGuard, KindGuard, SimpleLeft, PlainOnly, Convert bool }
+type OptFlags struct{ WalkSlice, StrGuard, KindGuard, SimpleLeft, PlainOnly, Convert, RangeNoOverflow bool }
 
 func (f OptFlags) Sx() *Sx {
-	return T("flags", SBool(f.WalkSlice), SBool(f.StrGuard), SBool(f.KindGuard), SBool(f.SimpleLeft), SBool(f.PlainOnly), SBool(f.Convert))
+	return T("flags", SBool(f.WalkSlice), SBool(f.StrGuard), SBool(f.KindGuard), SBool(f.SimpleLeft), SBool(f.PlainOnly), SBool(f.Convert), SBool(f.RangeNoOverflow))
 }
 
 func (f OptFlags) String() string {
-	return fmt.Sprintf("walkSlice=%v strGuard=%v kindGuard=%v simpleLeft=%v plainOnly=%v convert=%v", f.WalkSlice, f.StrGuard, f.KindGuard, f.SimpleLeft, f.PlainOnly, f.Convert)
+	return fmt.Sprintf("walkSlice=%v strGuard=%v kindGuard=%v simpleLeft=%v plainOnly=%v convert=%v rangeNoOverflow=%v", f.WalkSlice, f.StrGuard, f.KindGuard, f.SimpleLeft, f.PlainOnly, f.Convert, f.RangeNoOverflow)
 }
 
-var optRepaired = OptFlags{true, true, true, true, true, true}
+var optRepaired = OptFlags{true, true, true, true, true, true, true}
 
 var flagKeys = []struct {
 	name string
@@ -58,6 +58,7 @@ var flagKeys = []struct {
 	{"inRangeKindGuard", "c02:in-range-left-type", func(f *OptFlags) { f.KindGuard = true }, func(f OptFlags) bool { return f.KindGuard }},
 	{"inRangeSimpleLeft", "c02:in-range-left-evaluated-twice", func(f *OptFlags) { f.SimpleLeft = true }, func(f OptFlags) bool { return f.SimpleLeft }},
 	{"constExprConvert", "c02:constexpr-int-literal-kind", func(f *OptFlags) { f.Convert = true }, func(f OptFlags) bool { return f.Convert }},
+	{"constRangeNoOverflow", keyRangeOverflow, func(f *OptFlags) { f.RangeNoOverflow = true }, func(f OptFlags) bool { return f.RangeNoOverflow }},
 	{"foldPlainOnly", "c02:fold-retyped-literal", func(f *OptFlags) { f.PlainOnly = true }, func(f OptFlags) bool { return f.PlainOnly }},
 }
 
@@ -66,6 +67,10 @@ const (
 	keyBudget    = "c02:budget-differs"
 	keyUnattr    = "c02:unattributed"
 	keyConstNil  = "c02:constexpr-nil-result"
+	// const_range.go folds a literal range whose size overflows int to the empty constant
+	keyRangeOverflow = "c02:const-range-size-overflow"
+	// OpRange / makeRange compute max-min+1 in int: a range of more than 2^63-1 elements is empty instead of exceeding the budget
+	keyVMRangeOverflow = "c02:vm-range-size-overflow"
 )
 
 // ---------------------------------------------------------------------------------------------
@@ -203,6 +208,8 @@ func probeOptFlags(c *Ctx) OptFlags {
 	f.PlainOnly = has(optimizeReal(`Half(1/2)`, env, nil), " "+div+" ")
 	// (#11)
 	f.Convert = !optimizeReal(`I64f(1)`, env, []string{"I64f"}).Rejected
+	// size overflow in const_range.go: the range of 2^63 elements stays a range
+	f.RangeNoOverflow = has(optimizeReal(`len(0..9223372036854775807)`, env, nil), SStr("..").String())
 	for _, p := range []string{"[1+1, I][0:1]", `1 in ["a"]`, `F in 1..3`, `Inc(I) in 1..3`, `Half(1/2)`} {
 		if o := optimizeReal(p, env, nil); o.Stage != "done" {
 			c.R.Mismatch("probe", p, "expected to optimise", fmt.Sprintf("stage=%s err=%v", o.Stage, o.Err))
@@ -225,7 +232,7 @@ func (o *og) pick(xs ...string) string { return xs[o.r.Intn(len(xs))] }
 
 func (o *og) intLit() string {
 	if !o.small && o.r.Intn(12) == 0 {
-		return o.pick("9223372036854775807", "4611686018427387904", "9007199254740993", "3037000500", "255", "128", "200", "1000")
+		return o.pick("9223372036854775807", "4611686018427387904", "9007199254740993", "3037000500", "255", "128", "200", "1000", "9223372036854775806", "(-9223372036854775807 - 1)")
 	}
 	return o.pick("0", "1", "2", "3", "5", "7", "10", "100")
 }
@@ -321,7 +328,7 @@ func (o *og) arrayLit(d int) (string, string) {
 
 func (o *og) rangeLit(d int) string {
 	if o.r.Intn(8) == 0 {
-		return o.pick("1..1000001", "5..1", "0..1000000", "(1 - 2)..3", "3..3", "1..2000", "1..(100 * 100)")
+		return o.pick("0..9223372036854775807", "-1..9223372036854775807", "(-9223372036854775807 - 1)..9223372036854775807", "1..9223372036854775807", "(-9223372036854775807 - 1)..0", "9223372036854775807..9223372036854775807", "1..1000001", "5..1", "0..1000000", "(1 - 2)..3", "3..3", "1..2000", "1..(100 * 100)")
 	}
 	o.small = true
 	defer func() { o.small = false }()
@@ -574,7 +581,7 @@ var optFixed = []string{
 	`I in [1, 2, 3]`, `I in [1, 1, 2]`, `I not in [1, 2]`, `S in ["a", "b"]`, `S in ["a", "a"]`, `S not in ["a"]`, `I in []`, `I in [1, "a"]`, `1 in ["a"]`, `nil in ["a"]`, `F in ["a"]`,
 	`I64 in [1, 2]`, `F in [1, 2]`, `Z in [1]`, `Anys[0] in ["a"]`, `I in [1 + 1]`, `I8 in [1]`, `Id(I) in [1]`, `"a" in ["a"]`,
 	`I in 1..3`, `I not in 1..3`, `F in 1..3`, `S in 1..3`, `nil in 1..3`, `Inc(I) in 1..3`, `I in 3..1`, `I in (1 - 2)..3`, `I in -1..3`, `I8 in 1..3`, `U in 1..3`, `I in I..3`, `Z in 1..3`,
-	`1..3`, `3..1`, `3..3`, `1..1000001`, `0..1000000`, `-2..2`, `I in 0..4611686018427387904`, `F in 0..4611686018427387904`, `I8 in -5..255`, `I8 in 1..3`, `U8 in -100..100`, `I64 in -5..255`, `(-9223372036854775807 - 1)..9223372036854775807`,
+	`1..3`, `3..1`, `3..3`, `1..1000001`, `0..1000000`, `-2..2`, `len(0..9223372036854775807)`, `0..9223372036854775807`, `len(-1..9223372036854775807)`, `len(1..9223372036854775807)`, `len((-9223372036854775807 - 1)..9223372036854775807)`, `3 in 0..9223372036854775807`, `I in -1..9223372036854775807`, `len(9223372036854775807..9223372036854775807)`, `len((-9223372036854775807 - 1)..(-9223372036854775807 - 1))`, `9223372036854775807 - (-9223372036854775807 - 1)`, `I in 0..4611686018427387904`, `F in 0..4611686018427387904`, `I8 in -5..255`, `I8 in 1..3`, `U8 in -100..100`, `I64 in -5..255`, `(-9223372036854775807 - 1)..9223372036854775807`,
 	`map(1..3, {# * 2})`, `all(1..3, {# in 1..2})`, `filter(Ints, {# in [1, 2]})`,
 	`Half((7 % 2) - 3)`, `Half((7 % 2) + 3)`, `Half(3 - (7 % 2))`, `I64f((7 % 2) * 3)`, `Half(3 / (7 % 4))`, `Half(-(7 % 2))`, `Half((7 % 2) - 3 - 1)`, `Add(1, (7 % 2) - 3)`,
 	`Half(1 / 2)`, `Half(1)`, `Half(-0)`, `Half(9007199254740993 - 9007199254740992)`, `I64f(1 + 2)`, `I64f(1)`, `Inc(1 + 1)`, `Add(2 * 3, 4)`, `Sum(1, 2 + 3)`, `Sum()`, `Id(1 + 1)`, `Fast(1, "a")`,
@@ -1023,6 +1030,34 @@ func (or *oracle) attribute() {
 		}
 		r.Count("attribution:combined", 1)
 	}
+	// deviations the reference evaluator was not asked about (ranges too large to build): is an int overflow involved?
+	var lines3 []string
+	var idx3 []int
+	for i, pv := range or.pending {
+		if allVerdicts[i]["as-is"] == "skipped" {
+			idx3 = append(idx3, i)
+			lines3 = append(lines3, T("rangeinfo", A(pv.cs.Real.Before)).String())
+		}
+	}
+	resp3, err := c.AskAll(lines3)
+	if err != nil {
+		r.Mismatch("driver", "rangeinfo", err.Error(), "")
+		return
+	}
+	for k, i := range idx3 {
+		pv := or.pending[i]
+		m, perr := ParseSx(resp3[k])
+		if perr != nil || m.Tag() != "rangeinfo" || len(m.List) != 3 {
+			continue
+		}
+		overflow, foldsDiffer := m.List[1].Atom == "true", m.List[2].Atom == "true"
+		switch {
+		case overflow && foldsDiffer:
+			pv.hint = keyRangeOverflow
+		case overflow && pv.hint != keyBudget:
+			pv.hint = keyVMRangeOverflow
+		}
+	}
 	for i, pv := range or.pending {
 		verdicts := allVerdicts[i]
 		detail := details[i]
@@ -1116,6 +1151,8 @@ var witnessTable = []struct {
 	{"c02:array-literal-elem-type", `First([1, 2])`, nil, "literal array folded to []int passed to a func([]interface{})"},
 	{"c02:in-range-left-type", `I8 in -5..255`, nil, "in-range rewrite with an int8 left operand and bounds outside int8"},
 	{"c02:constexpr-nil-result", `Null()`, []string{"Null"}, "ConstExpr function returning nil: the compiler cannot emit the nil constant"},
+	{keyRangeOverflow, `len(0..9223372036854775807)`, nil, "a literal range whose size overflows int is folded to the empty constant"},
+	{keyVMRangeOverflow, `3 in 0..9223372036854775807`, nil, "OpRange computes max-min+1 in int: the unoptimised range of 2^63 elements is empty"},
 	{"c02:budget-differs", `len(1..1000000)`, nil, "constant range is not counted against the memory budget"},
 	{"c02:budget-differs", `len(map(1..400000, {# in [1, 2, 3]}))`, nil, "literal array inside a loop is counted only when not folded"},
 }
@@ -1142,7 +1179,11 @@ func runWitnesses(c *Ctx) {
 		same := on == off || (strings.HasPrefix(on, "error") && strings.HasPrefix(off, "error"))
 		if !same {
 			r.Count("witness:deviates", 1)
-			r.Violate(Violation{What: w.What, Key: w.Key,
+			key := w.Key
+			if key == keyVMRangeOverflow && strings.HasPrefix(off, "error[budget]") {
+				key = keyBudget // OpRange repaired: what is left is the budget difference
+			}
+			r.Violate(Violation{What: w.What, Key: key,
 				Input:  oracleInput{Src: w.Src, Env: "witnessEnv{I:2 F:1.5 S:a Ints:[1 2] Anys:[1 2] Half I64f I8f Next(counter)}", Mode: "struct", Fns: w.Fns, Pair: "optimize-on/off"},
 				Expect: "Optimize(false): " + off, Got: "Optimize(true): " + on})
 		}
